@@ -5,12 +5,16 @@ use serde_json::Value;
 
 pub mod c08;
 pub mod c14;
+pub mod c16;
+pub mod c17;
 pub mod c20;
 
 pub fn run(id: &str, tier: Tier) -> Option<CheckResult> {
     match id {
         "C08" => Some(c08::run(tier)),
         "C14" => Some(c14::run(tier)),
+        "C16" => Some(c16::run(tier)),
+        "C17" => Some(c17::run(tier)),
         "C20" => Some(c20::run(tier)),
         _ => None,
     }
@@ -20,6 +24,8 @@ pub fn replay(id: &str, case: &Value) -> Option<Vec<Violation>> {
     match id {
         "C08" => Some(c08::replay(case)),
         "C14" => Some(c14::replay(case)),
+        "C16" => Some(c16::replay(case)),
+        "C17" => Some(c17::replay(case)),
         "C20" => Some(c20::replay(case)),
         _ => None,
     }
